@@ -272,7 +272,7 @@ static void write_stats(const char *mode, bool exhaustive, bool enumerating, uns
 {
 	bool save = g_counting;
 	g_counting = false;
-	std::ofstream f(g_out + ".stats.json");
+	std::ofstream f(g_out + ".stats.json.tmp");
 	f << "{\"harness\":\"" << H_NAME << "\",\"mode\":\"" << mode << "\",\"evaluations\":" << g_st.evaluations
 	  << ",\"nontrivial\":" << g_st.nontrivial << ",\"distinct_local\":" << g_st.distinct.size()
 	  << ",\"distinct_capped\":" << (g_st.distinct_capped ? "true" : "false")
@@ -301,6 +301,7 @@ static void write_stats(const char *mode, bool exhaustive, bool enumerating, uns
 		f << ",\"failmsg\":\"" << jesc(g_lastfail_msg) << "\"";
 	f << "}\n";
 	f.close();
+	rename((g_out + ".stats.json.tmp").c_str(), (g_out + ".stats.json").c_str());
 	// hashes for the cross-worker union
 	FILE *hf = fopen((g_out + ".hashes").c_str(), "wb");
 	if (hf) {
